@@ -436,7 +436,17 @@ int main(int argc, char** argv)
     be::BT<VS>::libs[l] = &lib[l];
   }
   int which = argc > 1 ? atoi(argv[1]) : -1;
-  if (which < 0 || which == 0) run_backend<VS>(rng);
+  if (which < 0 || which == 0) {
+    run_backend<VS>(rng);
+    // the model keeps typed entry points (as a wasm module's indirect calls are typed): the machine-level signature RLBox told
+    // the backend when it registered a callback must be the one sandboxed code - compiled for the sandbox's ABI - calls with
+    mon::evals();
+    if (vsbx_ev.entry_point_signature_mismatch)
+      mon::violation("C12/model/entry-point-signature-is-not-the-sandbox-abi",
+                     mon::fmt("%s: %llu calls from sandboxed code reached an entry point that was registered with a different machine-level signature (size or float-ness of a parameter or of the result) than the sandbox ABI's",
+                              MCfg::name, (unsigned long long)vsbx_ev.entry_point_signature_mismatch));
+    else mon::hit("entry-point-signature-is-the-sandbox-abi");
+  }
   if (which < 0 || which == 1) run_backend<rlbox_noop_sandbox>(rng);
   if (which < 0 || which == 2) run_backend<rlbox_dylib_sandbox>(rng);
   mon::hit("entry-point-ran-exactly-its-function", n_call_ok);
